@@ -2,7 +2,9 @@ package checks
 
 import (
 	"fmt"
+	"os/exec"
 	"path/filepath"
+	"strings"
 
 	"csverify/bounds"
 	"csverify/core"
@@ -88,4 +90,47 @@ func checkC03(r *core.Result) {
 	r.Floor("*Decoder methods", nd, 33)
 	r.Floor("obligations", len(r.Obligations), 150)
 	_ = filepath.Base
+	if r.Tier == "thorough" {
+		lines := map[int]bool{}
+		for _, o := range r.Obligations {
+			if (o.Rule == "O-idx" || o.Rule == "O-raw") && strings.HasPrefix(o.Pos, "decoder.go:") {
+				var ln int
+				fmt.Sscan(strings.TrimPrefix(o.Pos, "decoder.go:"), &ln)
+				lines[ln] = true
+			}
+		}
+		bceCrossCheck(r, ".", "decoder.go", lines)
+	}
+}
+
+// bceCrossCheck (thorough tier, completeness cross-reference only): every site in the given file for
+// which the Go compiler could not eliminate a bounds check must be one of the enumerated obligation
+// sites — otherwise the syntactic enumeration missed an indexing construct.
+func bceCrossCheck(r *core.Result, pkgPattern, file string, lines map[int]bool) {
+	cmd := exec.Command("go", "build", "-gcflags=-d=ssa/check_bce/debug=1", pkgPattern)
+	cmd.Dir = core.RepoDir()
+	cmd.Env = core.GoEnv()
+	out, err := cmd.CombinedOutput()
+	if err != nil {
+		r.Infra("BCE listing failed: %v: %s", err, firstLine(string(out)))
+		return
+	}
+	n, missed := 0, []string{}
+	for _, l := range strings.Split(string(out), "\n") {
+		if !strings.Contains(l, file+":") || !strings.Contains(l, "Found Is") {
+			continue
+		}
+		parts := strings.Split(l, ":")
+		if len(parts) < 3 {
+			continue
+		}
+		var ln int
+		fmt.Sscan(parts[1], &ln)
+		n++
+		if !lines[ln] {
+			missed = append(missed, strings.TrimSpace(l))
+		}
+	}
+	r.Counts["compiler-unproven bounds checks in "+file] = n
+	r.Ob("BCE-cross", "every compiler-unproven bounds check in "+file+" is an enumerated obligation site", file, len(missed) == 0 && n > 0, "sites not enumerated by the engine: "+strings.Join(firstN(missed, 5), "; "))
 }
